@@ -195,7 +195,7 @@ func init() {
 			job(sc(sim.CoreCfg("c03-core-k4-batchq", 4, 1, nil, fMove|fBExch|fBNew|fQ, oBasic).P("C03")), pick(tier, 4, 6), 2),
 			job(sc(sim.BoundaryNodesCfg("c03-boundary-34-nodes-iter", 1, fMove|fReg, oDeep).P("C03")), pick(tier, 2, 3), 1),
 			job(sc(sim.CoreCfg("c03-core-k3-ids-63-64-128-iter", 3, 8, []int{63, 0, 63, 0}, fMove|fReg, oDeep).P("C03")), pick(tier, 4, 5), 1),
-			job(sc(sim.CoreCfg("c03-core-k3-ids-0-191-255-iter", 3, 8, []int{0, 190, 62, 0}, fMove|fReg, oDeep).P("C03")), pick(tier, 3, 5), 1),
+			job(sc(sim.CoreCfg("c03-core-k3-ids-0-64-127-191-iter", 3, 8, []int{0, 63, 62, 63}, fMove|fReg, oDeep).P("C03")), pick(tier, 4, 5), 1),
 			job(sc(sim.BoundaryTablesCfg("c03-boundary-33-tables-iter", 1, fRet|fReg, oDeep).P("C03")), pick(tier, 2, 3), 1),
 		}
 	}, func(f *wx.Failure, _ string) bool {
